@@ -96,6 +96,8 @@ class C10(Check):
             return ['lex', text, rng.choice([None, k]), rng.random() < 0.3, rng.random() < 0.3 and not stateful]
         if r < 0.575:
             return ['get_terminal', rng.choice(sorted(t.name for t in p.terminals))]
+        if r < 0.585 and mode == 'history':
+            return ['parse_keep', text, start]
         if r < 0.60 and not stateful and mode == 'history':
             return ['lex_late', text]
         if r < 0.70 and not stateful:
@@ -157,6 +159,10 @@ class C10(Check):
                     for _ in range(rng.randint(0, 2)):
                         ops.append(self._gen_op(rng, cfg, 'threads'))
                     ops.append(['consume_late'])
+                elif ops[-1][0] == 'parse_keep':
+                    for _ in range(rng.randint(0, 3)):
+                        ops.append(self._gen_op(rng, cfg, 'threads'))
+                    ops.append(['resume_kept'])
             plan['tasks'] = [ops]
             plan['strategy'] = {'kind': 'serial'}
             plan['interrupts'] = []
@@ -201,8 +207,10 @@ class C10(Check):
         for t, k, n in plan.get('interrupts', []):
             intr.setdefault(t, {})[k] = n
         tasks = []
+        stashes = []
         for ti, tops in enumerate(plan['tasks']):
             stash = {}
+            stashes.append(stash)
             closures = [(lambda op=op, stash=stash: O.run_op(p, e, op, stash, shared=shared)) for op in tops]
             caps = {k: (3_000_000 if op[0] in ('construct', 'sibling', 'save_load', 'reconstruct') else 400_000) for k, op in enumerate(tops)}
             tasks.append(sch.spawn(closures, interrupts=intr.get(ti), step_caps=caps))
@@ -225,6 +233,7 @@ class C10(Check):
         results_log = []
         for ti, (task, tops) in enumerate(zip(tasks, plan['tasks'])):
             late_op = None
+            kept_op = None
             for k, op in enumerate(tops):
                 if k >= len(task.results):
                     break
@@ -247,13 +256,26 @@ class C10(Check):
                     abnormal_before = True
                     out.count('fault:generator-kept-alive')
                     continue
-                if op[0] == 'consume_late':
+                if op[0] == 'parse_keep':
+                    kept_op = op if 'kept' in val else None
+                    if kept_op is not None:
+                        abnormal_before = True
+                        out.count('fault:error-session-kept-alive')
+                        continue
+                    want = self._expected(cfg, e, ['parse', op[1], op[2]], fresh_holder)
+                elif op[0] == 'resume_kept':
+                    if kept_op is None or 'nothing' in val:
+                        kept_op = None
+                        continue
+                    want = self._expected(cfg, e, kept_op, fresh_holder)
+                    kept_op = None
+                elif op[0] == 'consume_late':
                     if late_op is None or 'nothing' in val:
                         late_op = None
                         continue
                     want = self._expected(cfg, e, late_op, fresh_holder)
                     late_op = None
-                else:
+                elif op[0] not in ('parse_keep', 'resume_kept'):
                     want = self._expected(cfg, e, op, fresh_holder)
                 results_log.append([ti, k, jhash(val)])
                 if val != want:
@@ -267,6 +289,17 @@ class C10(Check):
                     out.count('fault:' + _abnormal(op, val))
             if out.violation:
                 break
+        if out.violation is None:
+            # results handed out earlier must still be what they were: later calls (of any thread) must not reach into them
+            from sim.canon import canon as _canon
+            for ti, stash in enumerate(stashes):
+                for r, c0, op in stash.get('raw', ()):
+                    out.count('probe:earlier-result-re-examined')
+                    if _canon(r, True) != c0:
+                        out.violation = Violation('result-mutated-by-later-call', config=cfg, task=ti, op=op, was=c0, now=_canon(r, True))
+                        break
+                if out.violation:
+                    break
         if plan['mode'] == 'threads':
             out.nontrivial = sch.nontrivial_switches > 0
             out.count('switches', sch.switches)
